@@ -288,6 +288,13 @@ func (e *Exec) execRange(s *ast.RangeStmt, label string, st *State, ctx *Ctx, k 
 		e.setGhost(head, li, "idx", idx)
 		head.pc = append(head.pc, "(<= 0 "+idx+")")
 	}
+	switch kind {
+	case rkMap, rkSortedMap:
+		// schema invariant (holds by construction): only present keys are ever visited
+		head.pc = append(head.pc, "(forall ((j String)) (=> (select "+visited+" j) (not (= (select (mapOf "+coll+") j) VAbsent))))")
+	case rkRMap:
+		head.pc = append(head.pc, "(forall ((j String)) (=> (select "+visited+" j) (not (= (select "+coll+" j) 0))))")
+	}
 	if kind == rkSortedMap {
 		// link between the ghost set and the ghost sequence (part of the assumed sortedMap contract)
 		head.pc = append(head.pc,
